@@ -2,6 +2,7 @@ package specification
 
 import (
 	"fmt"
+	"strings"
 
 	"github.com/getkin/kin-openapi/openapi3"
 )
@@ -40,7 +41,9 @@ func NewSecurityScheme(s *openapi3.SecurityScheme) (*SecurityScheme, error) {
 		Name: s.Name,
 		In:   SecuritySchemeIn(s.In),
 
-		Scheme:       s.Scheme,
+		// names of HTTP authentication schemes are case-insensitive (RFC 7235);
+		// the IANA registry spells this one "Bearer"
+		Scheme:       strings.ToLower(s.Scheme),
 		BearerFormat: s.BearerFormat,
 
 		Flows: flows,
